@@ -100,3 +100,101 @@ def to_tuple(v):
     if isinstance(v, list):
         return tuple(to_tuple(x) for x in v)
     return v
+
+
+# ---- reference filter evaluator (C06/C07), written from the documentation ----
+
+
+class IllTyped(Exception):
+    """The (filter, job) pair is outside the well-typed domain."""
+
+
+_TYPE_NAMES = {"int": int, "float": float, "bool": bool, "str": str, "list": list, "null": type(None)}
+LOGICAL = ("$and", "$or", "$not")
+
+
+def resolve(root, tokens):
+    """Follow `tokens` through nested mappings. Returns (present, value)."""
+    v = root
+    for t in tokens:
+        if isinstance(v, Mapping) and t in v:
+            v = v[t]
+        else:
+            return False, None
+    return True, v
+
+
+def _leaf(jobdoc, tokens, op, arg):
+    present, v = resolve(jobdoc, tokens)
+    if op == "$exists":
+        return present if arg else not present
+    if not present:
+        return False
+    is_map = isinstance(v, Mapping)
+    if op in ("$eq", None):
+        return (not is_map) and v == arg
+    if op == "$ne":
+        return is_map or v != arg
+    if op in ("$gt", "$gte", "$lt", "$lte"):
+        if is_map:
+            raise IllTyped("order comparison with a mapping value")
+        try:
+            return {"$gt": v > arg, "$gte": v >= arg, "$lt": v < arg, "$lte": v <= arg}[op]
+        except TypeError:
+            raise IllTyped("unorderable")
+    if op == "$in":
+        return (not is_map) and any(v == a for a in arg)
+    if op == "$nin":
+        return is_map or not any(v == a for a in arg)
+    if op == "$regex":
+        import re
+
+        return isinstance(v, str) and re.search(arg, v) is not None
+    if op == "$type":
+        return (not is_map) and isinstance(v, _TYPE_NAMES[arg])
+    if op == "$near":
+        import math
+
+        rel, ab = 1e-9, 0.0
+        if isinstance(arg, (list, tuple)):
+            if len(arg) == 1:
+                (x,) = arg
+            elif len(arg) == 2:
+                x, rel = arg
+            else:
+                x, rel, ab = arg
+        else:
+            x = arg
+        if is_map or isinstance(v, (str, list, type(None))):
+            raise IllTyped("$near on a non-number")
+        return math.isclose(v, float(x), rel_tol=float(rel), abs_tol=float(ab))
+    raise ValueError(f"unknown operator {op}")
+
+
+def matches(jobdoc, flt, _path=None):
+    """Does the job ({'sp':..., ['doc':...]}) satisfy the user-level filter?"""
+    ok = True
+    for key, value in flt.items():
+        if key in ("$and", "$or"):
+            rs = [matches(jobdoc, f) for f in value]
+            r = all(rs) if key == "$and" else any(rs)
+        elif key == "$not":
+            r = not matches(jobdoc, value)
+        else:
+            tokens = key.split(".")
+            if _path is None:
+                if tokens[0] not in ("sp", "doc"):
+                    tokens = ["sp"] + tokens
+            else:
+                tokens = _path + tokens
+            if tokens[-1].startswith("$"):
+                r = _leaf(jobdoc, tokens[:-1], tokens[-1], value)
+            elif isinstance(value, Mapping) and value:
+                if all(k.startswith("$") for k in value):
+                    r = all([_leaf(jobdoc, tokens, op, arg) for op, arg in value.items()])
+                else:
+                    r = matches(jobdoc, value, _path=tokens)
+            else:
+                r = _leaf(jobdoc, tokens, None, value)
+        ok = ok and r  # no short circuit: IllTyped must surface for every clause
+    return ok
